@@ -10,6 +10,10 @@ OpsV == {"GoNew", "Sentinel", "Errno", "New", "Newf", "NewfW", "PkgNew", "Unimpl
          "NewAssertionErrorWithWrappedErrf", "WrapWithHTTPCode", "WrapWithGrpcCode", "GoWrap",
          "PkgWithMessage", "PkgWithStack", "PkgWrap", "OsPathError", "OsSyscallError", "UWrap",
          "Join", "JoinPkg", "GoJoin", "GoWrap2", "Hop"}
+\* restricted instance: several domains and several stack-bearing layers in one chain
+\* (every exception of the report carries the domain of the error as a whole)
+OpsDomains == {"New", "GoNew", "Wrap", "WithStack", "WithDomain", "HandledInDomain", "Join"}
+ShapesDom == {<<"w1">>, <<"w2">>}
 ShapesV == {<<"w1">>, <<"w1", "SEP", "w2">>, <<"w2", "NL", "w1">>}
 Shapes2V == {<<"w2">>, <<"w3", "SEP", "w1">>, <<"w2", "PCT">>}
 \* single-line messages only
